@@ -25,11 +25,13 @@ def generate(prop, seed, tier):
                               sched=dict(strategy=rng.choice([["rw", 0.05, 0.5], ["rw", 0.1, 0.5], ["rw", 0.2, 0.5],
                                                               ["rw", 0.3, 0.5], ["pct", 30, 1500], ["pct", 10, 600, 1]]),
                                          gran="opcode+", salt=desc["sched"]["salt"]))
+    if seed % 16 == 7:
+        desc = sibling_files_desc(seed, rng)
     desc["tier"] = tier
     last = desc["ops"][-1]
     last["cfg"]["max_errors"] = rng.choice([0, 0, 2, None])
     last["cfg"]["max_workers"] = rng.choice([1, 2, 3, 4])
-    if rng.random() < 0.3:
+    if rng.random() < 0.3 and not desc.get("file_stores"):
         # file-backed world: non-source stores are real PickleFileStore files; cut positions then include every
         # file operation (open / raw write / close / replace, before and after) of every store write
         derived = ref.derived_stores(desc["world"])
@@ -39,9 +41,51 @@ def generate(prop, seed, tier):
         for nm in names:
             desc["world"]["stores"][nm]["flavour"] = "plain"
         if names:
-            desc["file_stores"] = names
+            file_backed(desc, names, rng)
             last["cfg"]["buffer_size"] = rng.choice([8192, 64, 16])
     return desc
+
+
+def sibling_files_desc(seed, rng):
+    """Several independent stored calls whose value stores are files with pathlib paths sharing stems (x.dat / x.pkl),
+    written at the same time by several workers; a consumer of all of them."""
+    from model import worldgen
+
+    nodes = [dict(id=0, kind="src", store="s0", deps=[], scope=[], depth=0)]
+    stores = {"s0": dict(flavour="plain", cls="A")}
+    k = rng.choice([2, 2, 3, 4])
+    for i in range(1, k + 1):
+        stores[f"s{i}"] = dict(flavour="plain", cls="A")
+        nodes.append(dict(id=i, kind="call", args=[["n", 0]], kwargs=[], deps=[], scope=[], dur=0.0, ret="val",
+                          fname=rng.choice(["f", "g"]), depth=0, store=f"s{i}", add_depth=0))
+    nodes.append(dict(id=k + 1, kind="call", args=[["n", i] for i in range(1, k + 1)], kwargs=[], deps=[], scope=[],
+                      dur=0.0, ret="val", fname="h", depth=0))
+    world = dict(nodes=nodes, stores=stores, late_deps=[], output=["n", k + 1])
+    cfg = dict(max_workers=rng.choice([2, 3, 4]), scheduler=rng.choice([None, "default", "random"]), max_errors=0, retry=None,
+               stale_workers=None, output=True, use_fresh=True)
+    ops = [dict(op="run", cfg=dict(cfg)), dict(op="update", store="s0")] if rng.random() < 0.5 else []
+    ops.append(dict(op="run", cfg=dict(cfg), final=True))
+    desc = dict(seed=seed, world=world, ops=ops, tick=rng.choice([1.0, 0.001]),
+                sched=dict(strategy=rng.choice([["rw", 0.0, 0.3], ["rw", 0.0, 0.6], ["pct", 3, 200], ["pct", 6, 300]]),
+                           gran="sync", salt=rng.randrange(1 << 30)))
+    desc["file_stores"] = [f"s{i}" for i in range(1, k + 1)]
+    desc["touch_stores"] = []
+    desc["file_siblings"] = True
+    return desc
+
+
+def file_backed(desc, names, rng):
+    """Make the given (non-source, non-feeding) stores real files of bundled stores: pickle files, touch files for
+    calls that return None, optionally pathlib paths in which pairs of stores share a stem."""
+    desc["file_stores"] = names
+    byid = {n["id"]: n for n in desc["world"]["nodes"]}
+    touch = []
+    for n in desc["world"]["nodes"]:
+        if n["kind"] == "call" and n.get("store") in names and rng.random() < 0.3:
+            n["ret"] = ["const", None]       # a side-effect step: its value store is a touch file
+            touch.append(n["store"])
+    desc["touch_stores"] = touch
+    desc["file_siblings"] = rng.random() < 0.4
 
 
 def _prefix(desc):
